@@ -273,4 +273,98 @@ theorem sorted_keys_nodup {α : Type} : ∀ {m : AMap α}, AMap.Sorted m → (m.
       rw [he] at this
       exact absurd this (String.lt_irrefl _)
 
+/-! ## CloneWith in the interpreter model: template-free operations are their own clones (C15 ↔ C14) -/
+
+mutual
+/-- no text field that CloneWith renders looks like a template -/
+def Op.tfree : Op → Bool
+  | .set _ p _ => !possiblyTemplate p
+  | .template _ p _ _ => !possiblyTemplate p
+  | .log m => !possiblyTemplate m
+  | .abort m => !possiblyTemplate m
+  | .ext .. => true
+  | .forEach _ _ _ b => b.tfree
+  | .loop i _ b p => optTfree i && b.tfree && optTfree p
+  | .call .. => true
+  | .define _ b => b.tfree
+def Action.tfree : Action → Bool
+  | .mk _ _ _ ops cs => opsTfree ops && actsTfree cs
+def optTfree : Option Action → Bool
+  | none => true
+  | some a => a.tfree
+def opsTfree : List Op → Bool
+  | [] => true
+  | o :: os => o.tfree && opsTfree os
+def actsTfree : List Action → Bool
+  | [] => true
+  | a :: as => a.tfree && actsTfree as
+end
+
+theorem renderLenient_of_not_template {t : String} (d : AMap Node) (h : possiblyTemplate t = false) :
+    renderLenient t d = t := by
+  simp [renderLenient, h]
+
+mutual
+theorem cloneOp_tfree (d : AMap Node) : ∀ (o : Op), o.tfree = true → cloneOp d o = o
+  | .set data p s, h => by
+    simp only [Op.tfree, Bool.not_eq_true'] at h
+    simp [cloneOp, renderLenient_of_not_template d h]
+  | .template t p tr pa, h => by
+    simp only [Op.tfree, Bool.not_eq_true'] at h
+    simp [cloneOp, renderLenient_of_not_template d h]
+  | .log m, h => by
+    simp only [Op.tfree, Bool.not_eq_true'] at h
+    simp [cloneOp, renderLenient_of_not_template d h]
+  | .abort m, h => by
+    simp only [Op.tfree, Bool.not_eq_true'] at h
+    simp [cloneOp, renderLenient_of_not_template d h]
+  | .ext fn id n, _ => rfl
+  | .forEach q its v b, h => by
+    simp only [Op.tfree] at h
+    simp [cloneOp, cloneAct_tfree d b h]
+  | .loop i t b p, h => by
+    simp only [Op.tfree, Bool.and_eq_true] at h
+    simp [cloneOp, cloneOptAct_tfree d i h.1.1, cloneAct_tfree d b h.1.2, cloneOptAct_tfree d p h.2]
+  | .call n ap args, _ => rfl
+  | .define n b, h => by
+    simp only [Op.tfree] at h
+    simp [cloneOp, cloneAct_tfree d b h]
+theorem cloneAct_tfree (d : AMap Node) : ∀ (a : Action), a.tfree = true → cloneAct d a = a
+  | .mk n o w ops cs, h => by
+    simp only [Action.tfree, Bool.and_eq_true] at h
+    simp [cloneAct, cloneOps_tfree d ops h.1, cloneActs_tfree d cs h.2]
+theorem cloneOptAct_tfree (d : AMap Node) : ∀ (a : Option Action), optTfree a = true → cloneOptAct d a = a
+  | none, _ => rfl
+  | some a, h => by
+    simp only [optTfree] at h
+    simp [cloneOptAct, cloneAct_tfree d a h]
+theorem cloneOps_tfree (d : AMap Node) : ∀ (os : List Op), opsTfree os = true → cloneOps d os = os
+  | [], _ => rfl
+  | o :: os, h => by
+    simp only [opsTfree, Bool.and_eq_true] at h
+    simp [cloneOps, cloneOp_tfree d o h.1, cloneOps_tfree d os h.2]
+theorem cloneActs_tfree (d : AMap Node) : ∀ (as : List Action), actsTfree as = true → cloneActs d as = as
+  | [], _ => rfl
+  | a :: as, h => by
+    simp only [actsTfree, Bool.and_eq_true] at h
+    simp [cloneActs, cloneAct_tfree d a h.1, cloneActs_tfree d as h.2]
+end
+
+theorem opsTfree_iff : ∀ (os : List Op), opsTfree os = true ↔ ∀ o ∈ os, o.tfree = true
+  | [] => by simp [opsTfree]
+  | o :: os => by simp [opsTfree, opsTfree_iff os]
+
+/-- performWithItem's "clone, then Execute" loop over template-free operations is OpSpec.Do's plain loop -/
+theorem run_cloneOps_tfree : ∀ (n : Nat) (os : List Op), (∀ o ∈ os, o.tfree = true) → ∀ st,
+    run n (.cloneOps os) st = run n (.ops os) st
+  | 0, _, _, _ => rfl
+  | _ + 1, [], _, _ => rfl
+  | n + 1, o :: os, h, st => by
+    show (run n (.op (cloneOp st.data o)) st).andThen (fun st => run n (.cloneOps os) st) =
+      (run n (.op o) st).andThen fun st => run n (.ops os) st
+    rw [cloneOp_tfree st.data o (h o (by simp))]
+    congr 1
+    funext st'
+    exact run_cloneOps_tfree n os (fun o' ho' => h o' (by simp [ho'])) st'
+
 end Ytk.Pipeline
